@@ -151,8 +151,13 @@ def _run_chunk(jobs, tag, timeout):
             # the crate keeps crashing / hanging: four replayable failures per chunk are enough
             log("  %s: %d jobs not run after repeated crashes/hangs" % (tag, len(todo)))
             break
-        for f_ in (jf, of):
-            pass
+    # the job and output files have been read: keep the work directory small
+    for r in range(1, rnd + 1):
+        for f_ in (os.path.join(WORK, "%s.%d.jobs.ndjson" % (tag, r)), os.path.join(WORK, "%s.%d.out.ndjson" % (tag, r))):
+            try:
+                os.remove(f_)
+            except OSError:
+                pass
     return results
 
 
